@@ -5,6 +5,9 @@ package main
 
 import (
 	"encoding/json"
+	"fmt"
+	"os"
+	"path/filepath"
 	"regexp"
 	"strconv"
 	"strings"
@@ -23,23 +26,37 @@ type progCase struct {
 }
 
 type lineEv struct {
-	L int `json:"l"`  // 1-based physical line
-	F int `json:"f"`  // frames on the call stack
-	D int `json:"d"`  // scope depth of the current module
+	L int `json:"l"` // 1-based physical line
+	F int `json:"f"` // frames on the call stack
+	D int `json:"d"` // scope depth of the current module
+	M int `json:"m"` // module the statement belongs to: 0 main file, k = k-th module file
 }
 
 var reHead = regexp.MustCompile(`位于第 (\d+) 行`)
 var reBody = regexp.MustCompile(`第 (\d+) 行：`)
+var reMod = regexp.MustCompile(`“([^”]*)”`)
 
-// parseChain extracts the line numbers of the head line and the body lines of a runtime error report.
-func parseChain(text string) ([]int, int) {
+// parseChain extracts the line numbers (and module names, "" = main module) of the head line and the
+// body lines of a runtime error report.
+func parseChain(text string) ([]int, []string, int) {
 	var chain []int
+	var mods []string
 	native := 0
+	modOf := func(l string) string {
+		if strings.Contains(l, "主模块") {
+			return ""
+		}
+		if m := reMod.FindStringSubmatch(l); m != nil {
+			return m[1]
+		}
+		return "?"
+	}
 	for _, l := range strings.Split(text, "\n") {
 		if strings.HasPrefix(l, "在") {
 			if m := reHead.FindStringSubmatch(l); m != nil {
 				n, _ := strconv.Atoi(m[1])
 				chain = append(chain, n)
+				mods = append(mods, modOf(l))
 			} else if strings.Contains(l, "内置模块") {
 				native++
 			}
@@ -47,12 +64,13 @@ func parseChain(text string) ([]int, int) {
 			if m := reBody.FindStringSubmatch(l); m != nil {
 				n, _ := strconv.Atoi(m[1])
 				chain = append(chain, n)
+				mods = append(mods, modOf(l))
 			} else if strings.Contains(l, "内置模块") {
 				native++
 			}
 		}
 	}
-	return chain, native
+	return chain, mods, native
 }
 
 func handleProg(raw json.RawMessage) interface{} {
@@ -60,16 +78,44 @@ func handleProg(raw json.RawMessage) interface{} {
 	if err := json.Unmarshal(raw, &c); err != nil {
 		return map[string]interface{}{"obs": "harness-error", "detail": err.Error()}
 	}
-	src, lmap := render.Program(&c.Prog)
+	var src string
+	var lmap map[string]int
+	var modSrc map[string]string
+	multi := len(c.Prog.Mods) > 0
+	if multi {
+		src, modSrc, lmap = render.Files(&c.Prog)
+	} else {
+		src, lmap = render.Program(&c.Prog)
+	}
+	modIdx := func(name string) int {
+		for k, m := range c.Prog.Mods {
+			if m.Name == name {
+				return k + 1
+			}
+		}
+		return 0
+	}
 	var evs []lineEv
 	var final r.VerifSnap
 	nev := 0
+	mainMod := -1
 	r.VerifHook = func(vm *r.VM, ev string, name string, n int) {
 		nev++
 		if ev == "line" {
+			if mainMod < 0 {
+				if s := vm.VerifSnapshot(); s.Frames == 1 {
+					mainMod = s.CurMod
+				}
+			}
 			if len(evs) < 5000 {
 				s := vm.VerifSnapshot()
-				evs = append(evs, lineEv{n + 1, s.Frames, s.CurDepth})
+				mi := 0
+				if multi {
+					if cm := vm.GetCurrentModule(); cm != nil {
+						mi = modIdx(cm.GetName())
+					}
+				}
+				evs = append(evs, lineEv{n + 1, s.Frames, s.CurDepth, mi})
 			}
 		}
 		if ev == "pop" || ev == "end" {
@@ -84,22 +130,52 @@ func handleProg(raw json.RawMessage) interface{} {
 			inputs[render.Name(n)] = value.NewNumber(float64(j + 1))
 		}
 	}
-	o := zn.RunScript(src, inputs)
+	var o zn.Outcome
+	if multi {
+		dir, derr := os.MkdirTemp(os.Getenv("VERIF_SCRATCH"), "prog-")
+		if derr != nil {
+			return map[string]interface{}{"obs": "harness-error", "detail": derr.Error()}
+		}
+		defer os.RemoveAll(dir)
+		for name, text := range modSrc {
+			os.WriteFile(filepath.Join(dir, name+".zn"), []byte(text), 0644)
+		}
+		mainPath := filepath.Join(dir, "主程序.zn")
+		os.WriteFile(mainPath, []byte(src), 0644)
+		o = zn.RunFile(mainPath, inputs)
+		src = src + "\n" + fmt.Sprint(modSrc)
+	} else {
+		o = zn.RunScript(src, inputs)
+	}
 	res := map[string]interface{}{"obs": o.Obs, "val": o.Val, "display": o.Display, "ev": evs, "lmap": lmap, "src": src,
 		"code": o.Code, "errkind": o.ErrKind, "msg": lastLine(o.Msg), "nev": nev}
 	if o.Obs == "error" {
-		chain, native := parseChain(o.Text)
+		chain, cmods, native := parseChain(o.Text)
 		res["chain"] = chain
+		cm := make([]int, len(cmods))
+		for k, n := range cmods {
+			cm[k] = modIdx(n)
+			if n == "?" {
+				cm[k] = -1
+			}
+		}
+		res["chainm"] = cm
 		res["native"] = native
 		res["text"] = o.Text
 	} else {
 		depths := 0
 		live := 0
-		for _, d := range final.Depth {
-			depths += d
-		}
-		for _, l := range final.Live {
-			live += l
+		if multi {
+			// an imported module keeps its own top-level symbols (its methods stay usable): only the
+			// main file's module (current at the first statement) must be back to zero
+			depths, live = final.Depth[mainMod], 0 // (a module run from a file keeps its top-level symbols: live is not compared)
+		} else {
+			for _, d := range final.Depth {
+				depths += d
+			}
+			for _, l := range final.Live {
+				live += l
+			}
 		}
 		res["end"] = map[string]int{"frames": final.Frames, "depth": depths, "live": live}
 	}
